@@ -77,6 +77,12 @@ EXTRA_STEPS = [("d", "$b", "x"), ("d", "${a}", "y"), ("d", "$$a", "x"),
                # empty, ZCV_EMPTY is set and empty): no legal name
                ("d", "$c", ""), ("d", "${c}", ""), ("d", "$c$c", ""),
                ("d", "$(ZCV_EMPTY)", ""), ("d", "$c", "x"),
+               # values that name the same file differently are different
+               # values
+               ("d", "c", "/srv/app"), ("d", "c", "/srv/app/"),
+               ("d", "c", "/srv//app"), ("d", "C", "/srv/./app"),
+               ("d", "c", "/srv/x/../app"), ("d", "c", "\\srv\\app"),
+               ("d", "c", "/SRV/app"),
                # non-ASCII letters next to / inside names: U+212A, U+017F,
                # U+0130 and U+0131 case-fold into ASCII letters, the rest
                # are letters for Unicode-aware patterns only; none of them
